@@ -25,6 +25,10 @@ var profiles = map[string]Profile{
 	// C11: balance under ordered insertions and removals
 	"C11": {Name: "C11", MinOps: 30, MaxOps: 150, Keys: 40, EmptyVals: false, ObsEvery: 25,
 		W: map[string]int{"set": 60, "rm": 22, "save": 6, "reopen": 1, "costs": 4}},
+	// C11tall: trees of height >= 9 (several hundred keys): the read-cost bounds of proofs of
+	// absence only become tight there
+	"C11tall": {Name: "C11tall", MinOps: 330, MaxOps: 700, Keys: 40, EmptyVals: false, ObsEvery: 0,
+		W: map[string]int{"set": 95, "rm": 3, "save": 1, "costs": 1}},
 	// C09: rollback / LoadVersionForOverwriting heavy
 	"C09": {Name: "C09", MinOps: 15, MaxOps: 60, Keys: 8, EmptyVals: true, ObsEvery: 5, ToggleFast: true,
 		Initials: []int64{-1, -1, 1, 7},
@@ -277,7 +281,15 @@ func m1gen(name string) func(r *rand.Rand, tier, id string) Case {
 		if name == "C11" {
 			p.Order = []string{"asc", "desc", "alt", ""}[r.Intn(4)]
 		}
+		if name == "C11tall" {
+			p.Order = []string{"asc", "desc", "alt"}[r.Intn(3)]
+		}
 		c := genM1(r, p, id)
+		if name == "C11tall" {
+			// a final commit and a sweep of lookups and absence proofs on it, nothing cached
+			c.Ops = append(c.Ops, []string{"save"}, []string{"costsweep"})
+			c.Cfgs = []string{"cache=0,fast=false,flush=100000,sync=false,backend=memdb,wrap=true"}
+		}
 		if name == "C11" {
 			// nothing cached: node cache 0, counting wrapper
 			fast := []string{"true", "false"}[r.Intn(2)]
